@@ -26,7 +26,7 @@ func (rn *runner) faultOne(c faultCase) (hit bool) {
 		rn.res.Count("fault-hit:" + c.Sys)
 	}
 	rn.res.Count("fault-outcome:" + strings.Fields(fo.impl)[0])
-	in := map[string]string{"kind": "fault", "call": c.call(), "old": c.Old, "new": c.New, "sys": c.Sys, "k": fmt.Sprint(c.K)}
+	in := map[string]string{"kind": "fault", "call": c.call(), "old": c.Old, "new": c.New, "sys": c.Sys, "k": fmt.Sprint(c.K), "helper": c.Helper}
 	if fo.direct != "" {
 		rn.violate("impl-violation", c.call()+"-fault:"+fo.direct, "fault "+c.call()+" "+fo.direct+" "+c.Sys,
 			fmt.Sprintf("%s with the %d-th %s on the file failing: %s", c.call(), c.K, c.Sys, fo.direct), fo.impl, fo.model, in)
@@ -47,7 +47,7 @@ func (rn *runner) faultPhase() {
 			// k = 1, 2, ... until the injection no longer hits a call (that run is the
 			// fault-free one and is checked too)
 			for k := 1; k <= 12; k++ {
-				if !rn.faultOne(faultCase{"transform", rel[0], rel[1], sys, k}) {
+				if !rn.faultOne(faultCase{"transform", rel[0], rel[1], sys, k, rel[2]}) {
 					break
 				}
 				if sys == "flock" {
@@ -66,7 +66,7 @@ func (rn *runner) writeFaultPhase() {
 		for _, pr := range pairs {
 			for _, sys := range []string{"ftruncate", "write", "flock"} {
 				for k := 1; k <= 3; k++ {
-					if !rn.faultOne(faultCase{call, pr[0], pr[1], sys, k}) || sys == "flock" {
+					if !rn.faultOne(faultCase{call, pr[0], pr[1], sys, k, ""}) || sys == "flock" {
 						break
 					}
 				}
@@ -76,8 +76,8 @@ func (rn *runner) writeFaultPhase() {
 }
 
 // fsizePhase: genuine short writes (RLIMIT_FSIZE) in Transform's tail write and in Write.
-func (rn *runner) fsizeOne(call, old, nw string, k int) {
-	fo, err := runFsizeCase(rn.self, rn.f.Work, rn.m, call, old, nw, k)
+func (rn *runner) fsizeOne(call, old, nw string, k int, helper string) {
+	fo, err := runFsizeCase(rn.self, rn.f.Work, rn.m, call, old, nw, k, helper)
 	if err != nil {
 		rn.res.Notes = append(rn.res.Notes, "short-write case skipped: "+err.Error())
 		return
@@ -88,7 +88,7 @@ func (rn *runner) fsizeOne(call, old, nw string, k int) {
 	if fo.hit {
 		rn.res.Count("shortwrite-hit:" + call)
 	}
-	in := map[string]string{"kind": "fsize", "call": call, "old": old, "new": nw, "k": fmt.Sprint(k)}
+	in := map[string]string{"kind": "fsize", "call": call, "old": old, "new": nw, "k": fmt.Sprint(k), "helper": helper}
 	if fo.direct != "" {
 		rn.violate("impl-violation", call+"-short-write:"+fo.direct, "fsize "+call+" "+fo.direct,
 			fmt.Sprintf("%s with a write that stores %d byte(s) and then fails (RLIMIT_FSIZE, EFBIG): %s", call, k, fo.direct), fo.impl, fo.model, in)
@@ -107,15 +107,20 @@ func (rn *runner) fsizePhase() {
 	for _, g := range grow {
 		d := len(common.UnHex(g[1])) - len(common.UnHex(g[0]))
 		for k := 0; k < d && k <= 6; k++ {
-			rn.fsizeOne("transform", g[0], g[1], k)
+			rn.fsizeOne("transform", g[0], g[1], k, "")
 		}
+	}
+	// growing by an in-place append (the result aliases the argument)
+	for k := 0; k < 4; k++ {
+		sp := "alias:append:3031323334"
+		rn.fsizeOne("transform", "616263646566", aliasValue(sp, "616263646566"), k, sp)
 	}
 	for _, w := range [][2]string{{"616263646566", "78797a7b7c"}, {"6162", "3031323334353637"}, {"-", "787978"}} {
 		n := len(common.UnHex(w[1]))
 		for k := 0; k < n && k <= 6; k++ {
-			rn.fsizeOne("write", w[0], w[1], k)
+			rn.fsizeOne("write", w[0], w[1], k, "")
 			if k < 3 {
-				rn.fsizeOne("createwrite", w[0], w[1], k)
+				rn.fsizeOne("createwrite", w[0], w[1], k, "")
 			}
 		}
 	}
@@ -128,14 +133,17 @@ func (rn *runner) histRound(mode string, procs, gor, iters int, seed uint64) boo
 	if mode == "incr" {
 		initial = []byte("0")
 	}
+	if mode == "append" {
+		initial = []byte("s")
+	}
 	evs, final, err := runHist(rn.self, rn.f.Work, mode, procs, gor, iters, seed, initial)
 	if err != nil {
 		rn.res.Notes = append(rn.res.Notes, "history round could not be run: "+err.Error())
 		return false
 	}
 	var fs []histFinding
-	if mode == "incr" {
-		fs = checkIncr(evs, final)
+	if mode == "incr" || mode == "append" {
+		fs = checkIncr(evs, final, mode)
 	} else {
 		fs = checkRegister(evs, 1, final)
 	}
@@ -177,6 +185,12 @@ func (rn *runner) histPhase() {
 	}
 	for r := 0; r < rounds; r++ {
 		if rn.histRound("incr", procs, gor+1, iters, rn.rng.Uint64()%1000000) {
+			break
+		}
+	}
+	// appending transformers whose result aliases their argument
+	for r := 0; r < rounds; r++ {
+		if rn.histRound("append", procs, gor+1, iters/2, rn.rng.Uint64()%1000000) {
 			break
 		}
 	}
@@ -299,15 +313,15 @@ func (rn *runner) runInput(in map[string]string) {
 	switch in["kind"] {
 	case "proto":
 		if rn.st {
-			rn.protoOne(protoCase{in["call"], in["arg"], in["file"]})
+			rn.protoOne(protoCase{in["call"], in["arg"], in["file"], in["helper"]})
 		}
 	case "eintr":
 		if rn.st {
-			rn.eintrOne(protoCase{in["call"], in["arg"], in["file"]})
+			rn.eintrOne(protoCase{Call: in["call"], Arg: in["arg"], File: in["file"]})
 		}
 	case "fault":
 		if rn.st {
-			rn.faultOne(faultCase{in["call"], in["old"], in["new"], in["sys"], atoi("k")})
+			rn.faultOne(faultCase{in["call"], in["old"], in["new"], in["sys"], atoi("k"), in["helper"]})
 		}
 	case "stress":
 		for i := 0; i < 3; i++ { // schedules are not reproducible: a few attempts
@@ -325,7 +339,7 @@ func (rn *runner) runInput(in map[string]string) {
 		rn.scenarioPhase([]string{in["name"]})
 	case "fsize":
 		if rn.st {
-			rn.fsizeOne(in["call"], in["old"], in["new"], atoi("k"))
+			rn.fsizeOne(in["call"], in["old"], in["new"], atoi("k"), in["helper"])
 		}
 	case "mutexmisc":
 		rn.mutexPhase()
